@@ -308,6 +308,11 @@ func BuildUnion(query *Query, expr *sqlparser.Union) error {
 	if err != nil {
 		return err
 	}
+	// an ORDER BY behind the last branch sorts the combined rows
+	err = BuildOrder(query, &expr.OrderBy)
+	if err != nil {
+		return err
+	}
 	return nil
 }
 
